@@ -291,6 +291,11 @@ def name_style_models():
                     mkunion('Ww', parent=R(None, 'Vv'), tags=[mktag('ww', R(None, 'Ss'))]),
                     mkroute('rr', 1, R(None, 'Ss'), R(None, 'Vv'), VOID))
             out.append((Model((Namespace('na', (File(None, (), defs),)),)), ('name-style', pos, nm), 'name-style', ('names',), 1))
+    # type names that the Python backends respell (HTTPError -> HttpError): struct, union, alias and subtype tree under that name
+    for nm in c09.HAZARD_TYPES + ['URLPath', 'upload_State', 'iOSDevice']:
+        defs = (Alias(nm + 'Al', R(None, nm), None, ()), mkstruct(nm, fields=[mkfield('ff', I32)]), mkstruct(nm + 'Kid', parent=R(None, nm), fields=[mkfield('kk', N(R(None, nm + 'Pick')))]),
+                mkunion(nm + 'Pick', tags=[mktag('p0'), mktag('p1', R(None, nm))]), mkroute('rr', 1, R(None, nm), R(None, nm + 'Al'), R(None, nm + 'Pick')))
+        out.append((Model((Namespace('na', (File(None, (), defs),)),)), ('name-style', 'type', nm), 'name-style', ('names',), 1))
     return out
 
 
